@@ -154,7 +154,9 @@ class World:
         events = []
         try:
             for seq, call in enumerate(prog['calls']):
-                events.append(self.run_call(prog['tid'], seq, call))
+                ev = self.run_call(prog['tid'], seq, call)
+                if ev is not None:
+                    events.append(ev)
         finally:
             self.reset_options()
         return events
@@ -168,8 +170,15 @@ class World:
         call.setdefault('sa', [])
         call.setdefault('va', [])
         call.setdefault('xs', [])
+        # a call whose target or operand was never created (an earlier creating call was refused
+        # by the library) is not executed at all
+        if call['t'] and call['t'] not in self.objs:
+            return None
+        for x in call['xs']:
+            if x['k'] == 'obj' and x['id'] not in self.objs:
+                return None
         drop = list(call.get('drop', []))
-        if opname == 'mk' and call.get('rid') in self.objs and call['rid'] not in drop:
+        if call.get('rid') in self.objs and call['rid'] not in drop:
             drop.append(call['rid'])
         if '*' in drop:
             drop = list(self.objs.keys())
@@ -864,3 +873,163 @@ def _tobytes(w, c):
     if how == 'prop':
         return t.bytes
     return t.tobytes()
+
+
+# ---------------------------------------------------------------------------
+# value <-> bits (C02, C10, C15): building from values, interpreting, token reads
+
+def pyval(w, val):
+    """Encoded value -> the Python value handed to the library."""
+    tag = val[0]
+    if tag == 0:
+        return None
+    if tag == 1:
+        return bool(val[1])
+    if tag == 2:
+        return enc.dec_int(val)
+    if tag == 3:
+        return enc.dec_float(val)
+    if tag == 4:
+        return ''.join('%x' % d for d in val[1:])
+    if tag == 5:
+        return ''.join('%o' % d for d in val[1:])
+    if tag == 6:
+        return ''.join('%d' % d for d in val[1:])
+    if tag == 7:
+        return bytes(val[1:])
+    if tag == 8:
+        return w.cls(enc.CODE_CLS[val[1]])(bin=enc.str_of_bits(val[4:]))
+    if tag == 9:
+        return val[1]
+    raise enc.Unloggable('value tag %r' % tag)
+
+
+def valtext(val):
+    """Text of a value inside a token string ('uint:8=VALUE')."""
+    tag = val[0]
+    if tag == 1:
+        return 'True' if val[1] else 'False'
+    if tag == 2:
+        return str(enc.dec_int(val))
+    if tag == 3:
+        return repr(enc.dec_float(val))
+    if tag in (4, 5, 6):
+        return ''.join('%x' % d for d in val[1:])
+    raise enc.Unloggable('no token text for tag %r' % tag)
+
+
+def tokname(name, n, style=0):
+    """Spelling of a dtype with its length: uint:8 / uint8 / 'uint : 8' ..."""
+    if n is None:
+        return name
+    if style % 3 == 0:
+        return f'{name}:{n}'
+    if style % 3 == 1:
+        return f'{name}{n}'
+    return f' {name} : {n} '
+
+
+def _hint_for(name):
+    return {'hex': 'hex', 'h': 'hex', 'oct': 'oct', 'o': 'oct', 'bin': 'bin', 'b': 'bin'}.get(name)
+
+
+@op('newval')
+def _newval(w, c):
+    clsname, name, route = c['sa'][0], c['sa'][1], c['sa'][2]
+    style = int(c['sa'][3]) if len(c['sa']) > 3 else 0
+    n = N(c['ia'][0])
+    val = c['va'][0]
+    v = pyval(w, val)
+    cls = w.cls(clsname)
+    bs = w.bs
+    if route == 'kw_len':
+        return cls(**{name: v}) if n is None else cls(**{name: v}, length=n)
+    if route == 'kw_namelen':
+        return cls(**{f'{name}{n}': v})
+    if route == 'token':
+        return cls(f'{tokname(name, n, style)}={valtext(val)}')
+    if route == 'fromstring':
+        return cls.fromstring(f'{tokname(name, n, style)}={valtext(val)}')
+    if route == 'dtype_build':
+        return bs.Dtype(name, n).build(v)
+    if route == 'dtype_build_name':
+        return bs.Dtype(tokname(name, n, style).strip()).build(v)
+    if route == 'pack':
+        return bs.pack(tokname(name, n, style), v)
+    if route == 'pack_kw':
+        return bs.pack(f'{name}:nn', v, nn=n)
+    if route == 'pack_val':
+        return bs.pack(f'{tokname(name, n, style)}={valtext(val)}')
+    if route == 'prop':
+        x = cls()
+        setattr(x, name if n is None else f'{name}{n}', v)
+        return x
+    if route == 'prop_sized':
+        # an existing object of the right size, assigned through the length-less property
+        x = cls(n * (8 if name == 'bytes' else 1))
+        setattr(x, name, v)
+        return x
+    raise ValueError('unknown route ' + route)
+
+
+@op('setprop')
+def _setprop(w, c):
+    name = c['sa'][0]
+    n = N(c['ia'][0])
+    v = pyval(w, c['va'][0])
+    setattr(T(w, c), name if n is None else f'{name}{n}', v)
+
+
+def _interp_hint(name):
+    return _hint_for(name)
+
+
+@op('interp')
+def _interp(w, c):
+    name, route = c['sa'][0], c['sa'][1]
+    style = int(c['sa'][2]) if len(c['sa']) > 2 else 0
+    n = N(c['ia'][0])
+    t = T(w, c)
+    bs = w.bs
+    if route == 'prop':
+        r = getattr(t, name)
+    elif route == 'prop_len':
+        r = getattr(t, f'{name}{n}')
+    elif route == 'dtype_parse':
+        r = bs.Dtype(name, n).parse(t)
+    elif route == 'unpack':
+        r = t.unpack(tokname(name, n, style))
+        if not isinstance(r, list) or len(r) != 1:
+            return enc.OPAQUE
+        r = r[0]
+    elif route == 'unpack_kw':
+        r = t.unpack(f'{name}:nn', nn=n)
+        if not isinstance(r, list) or len(r) != 1:
+            return enc.OPAQUE
+        r = r[0]
+    elif route == 'read':
+        s = bs.ConstBitStream(t)
+        r = s.read(tokname(name, n, style))
+        if s.pos != len(s):
+            return enc.OPAQUE
+    else:
+        raise ValueError('unknown route ' + route)
+    return Multi([r], [_hint_for(name)])
+
+
+@op('readtok')
+def _readtok(w, c):
+    name = c['sa'][0]
+    style = int(c['sa'][1]) if len(c['sa']) > 1 else 0
+    n = N(c['ia'][0])
+    r = T(w, c).read(tokname(name, n, style))
+    return Multi([r], [_hint_for(name)])
+
+
+@op('peektok')
+def _peektok(w, c):
+    name = c['sa'][0]
+    style = int(c['sa'][1]) if len(c['sa']) > 1 else 0
+    n = N(c['ia'][0])
+    r = T(w, c).peek(tokname(name, n, style))
+    return Multi([r], [_hint_for(name)])
